@@ -23,6 +23,14 @@ func init() {
 		Run: runC19,
 	})
 	addMutants("C19",
+		mutant{"prefix consumed before the payload is complete", "codec/frame/frame.go",
+			"\tpayloadLen := binary.BigEndian.Uint32(src.Data()[:HeaderLen])\n", "\tpayloadLen := binary.BigEndian.Uint32(src.Data()[:HeaderLen])\n\tsrc.Consume(HeaderLen)\n", "C19-R2"},
+		mutant{"prefix written little endian", "codec/frame/frame.go",
+			"\t\tbinary.BigEndian.PutUint32(into[:HeaderLen], uint32(payloadLen))", "\t\tbinary.LittleEndian.PutUint32(into[:HeaderLen], uint32(payloadLen))", "C19-R2"},
+		mutant{"ReadNext keeps reading after a decode error", "codec.go",
+			"\t\tif !errors.Is(err, sonicerrors.ErrNeedMore) {\n\t\t\treturn c.emptyDec, err\n\t\t}\n\n\t\t_, err = c.src.ReadFrom(c.stream)", "\t\t_, err = c.src.ReadFrom(c.stream)", "C19-R3"},
+		mutant{"AsyncWriteNext writes although Encode failed", "codec.go",
+			"\terr := c.codec.Encode(item, c.dst)\n\tif err == nil {\n\t\tc.dst.AsyncWriteTo(c.stream, cb)\n\t} else {\n\t\tcb(err, 0)\n\t}", "\t_ = c.codec.Encode(item, c.dst)\n\tc.dst.AsyncWriteTo(c.stream, cb)", "C19-R4"},
 		mutant{"WriteTo error path skips Consume", "byte_buffer.go",
 			"\t\tn, err = w.Write(b.data[b.si+writtenBytes : b.ri])\n\t\tif err != nil {\n\t\t\tbreak\n\t\t}", "\t\tn, err = w.Write(b.data[b.si+writtenBytes : b.ri])\n\t\tif err != nil {\n\t\t\treturn int64(writtenBytes), err\n\t\t}", "C19-R4"},
 		mutant{"length limit removed", "codec/frame/frame.go",
@@ -341,6 +349,40 @@ func runC19(c *Ctx) {
 	}
 
 	// ------------------------------------------------------------------------------------------------ R3
+	// nothing is consumed before the whole item is there: a Consume in Decode is never followed by an error return
+	// (an ErrNeedMore after the prefix was consumed makes the next attempt read payload bytes as a length)
+	{
+		for _, cc := range callsToFn(dec, consume) {
+			bad := false
+			for _, r := range returnsOf(dec) {
+				if len(r.Results) == 2 && !isNil(r.Results[1]) && reachesFrom(cc.(ssa.Instruction), r) {
+					bad = true
+				}
+			}
+			c.check(!bad, dec, "consume on success only", cc.Pos(), "bytes are consumed only once the item is complete", "Decode consumes bytes on a path that can still return an error (need more): after a split inside an item the next attempt starts in the middle of it and the stream is desynchronised")
+		}
+		// the length prefix is written and read in the same byte order
+		order := func(fn *ssa.Function, method string) string {
+			out := ""
+			for _, f := range withClosures(fn) {
+				eachInstr(f, func(in ssa.Instruction) {
+					call, ok := in.(ssa.CallInstruction)
+					if !ok {
+						return
+					}
+					if o := calleeObj(call); o != nil && o.Name() == method && o.Pkg() != nil && o.Pkg().Path() == "encoding/binary" {
+						if sig, ok := o.Type().(*types.Signature); ok && sig.Recv() != nil {
+							out = types.TypeString(sig.Recv().Type(), nil)
+						}
+					}
+				})
+			}
+			return out
+		}
+		eo, do := order(enc, "PutUint32"), order(dec, "Uint32")
+		c.check(eo != "" && eo == do, enc, "byte order", enc.Pos(), "prefix written and read as "+eo, fmt.Sprintf("the length prefix is written as %s and read as %s: every item is framed with a length the other side misreads", eo, do))
+	}
+
 	c.rule("C19-R3", "need-more protocol: a transport read between two Decode calls; room reserved for an incomplete payload; exits of ReadNext", 3)
 	{
 		// Reserve on the payload need-more path
@@ -451,11 +493,53 @@ func runC19(c *Ctx) {
 				}
 			}
 			c.check(goodExits, fn, "exits", fn.Pos(), "errors returned are decode errors other than NeedMore, or transport errors", "ReadNext returns ErrNeedMore to the caller (or an error of unknown origin) instead of reading more")
+			// more bytes are only asked for when the decoder said it needs more: any other decode error ends the call
+			for _, rd := range reads {
+				onlyNeedMore := false
+				for _, l := range guardsOf(rd.Block()) {
+					if call, ok := l.Cond.(*ssa.Call); ok && call.Call.StaticCallee() != nil && call.Call.StaticCallee().String() == "errors.Is" && l.Pos {
+						if isLoadOfGlobal(call.Call.Args[1], errNeedMore) {
+							onlyNeedMore = true
+						}
+					}
+					if op, x, y, ok := l.cmp(); ok && op == token.EQL && (isLoadOfGlobal(x, errNeedMore) || isLoadOfGlobal(y, errNeedMore)) {
+						onlyNeedMore = true
+					}
+				}
+				c.check(onlyNeedMore, fn, "read only on need-more", rd.Pos(), "the transport is read only after the decoder reported ErrNeedMore", "ReadNext reads from the transport after any decode error: a rejected item (length over the limit, malformed input) is not reported, the call keeps reading and buffering hostile input")
+			}
 		}
 	}
 
 	// ------------------------------------------------------------------------------------------------ R4
 	c.rule("C19-R4", "nothing left behind: AsyncWriteTo uses AsyncWriteAll and consumes n under err==nil; WriteTo resumes at si+written and consumes the total; ReadFrom/AsyncReadFrom grow by n under err==nil", 5)
+	// an item the codec refused is reported, and nothing is written for it
+	for _, fn := range p.Funcs {
+		if (fn.Name() != "WriteNext" && fn.Name() != "AsyncWriteNext") || fn.Parent() != nil {
+			continue
+		}
+		if pk, tn := recvTypeName(fn); pk != modPath || tn != "CodecConn" {
+			continue
+		}
+		var encCall ssa.Value
+		eachInstr(fn, func(in ssa.Instruction) {
+			if call, ok := in.(ssa.CallInstruction); ok && call.Common().IsInvoke() && call.Common().Method.Name() == "Encode" {
+				encCall, _ = in.(ssa.Value)
+			}
+		})
+		guarded := encCall != nil
+		n := 0
+		eachInstr(fn, func(in ssa.Instruction) {
+			if isCallToFn(in, bb("WriteTo")) || isCallToFn(in, bb("AsyncWriteTo")) {
+				n++
+				if encCall == nil || !guardedNil(in.Block(), encCall) {
+					guarded = false
+				}
+			}
+		})
+		c.check(guarded && n > 0, fn, "encode error", fn.Pos(), "the transport write happens only when Encode succeeded", fn.Name()+" writes to the transport although Encode may have failed (its error is not tested): a refused item is reported as written, or a half-encoded one reaches the peer")
+	}
+
 	{
 		wi := p.Field("sonic", "ByteBuffer", "wi")
 		si := p.Field("sonic", "ByteBuffer", "si")
